@@ -171,6 +171,12 @@ def isCanonList : List Item → Bool
   | x :: xs => isCanon x && isCanonList xs
 end
 
+/-- strictly ascending naturals (the order of unsigned-integer map keys in a canonical encoding) -/
+def ascNat : List Nat → Bool
+  | [] => true
+  | [_] => true
+  | a :: b :: r => decide (a < b) && ascNat (b :: r)
+
 /-! ## strict decoder -/
 
 def noDup : List Item → Bool
